@@ -19,6 +19,9 @@ CHECKS = {
  "C06": ("C", "stateless DFS over thread schedules of the real router under a controlled scheduler (points at lock announce/acquire/release, pool get/put, handler entry/exit, operation boundaries), iterative preemption bounding, race detector as per-execution oracle plus brute-force linearizability against sequential re-execution",
          "All 2- and 3-thread scenarios over the C06 writer/reader alphabet (about 330 quick) on a WithLock(true) router; every interleaving up to 2 preemptions (quick) / 3-4 (thorough) is executed under -race with a hand-off the detector cannot see, so conflicting accesses that mux does not order are reported for that schedule; no panic, no nil handler, no deadlock (writer preference modelled), every result vector linearizable and the final Routes() equal to that linearization's.",
          "Preemption-bounded; 2-3 threads x 1-2 operations; weak-memory effects of racy code are not explored (a race is itself the violation); Router.Use is outside the property's list and the alphabet; the Allow header read by user handlers at request time is not part of the compared response.", "4/C06"),
+ "C07": ("C", "stateless DFS over thread schedules under the controlled scheduler with the race detector as per-execution oracle (distinct instances in parallel; concurrent requests on a quiescent router with a LIFO context pool and requests parked inside handlers), a virgin-process pass for lazily initialised process-wide state, and exhaustive enumeration of other-instance histories for history independence",
+         "(a) all 1176 unordered pairs of 48 instance programs (Router / +WithLock / +WithTrace / Hosts / Group, each created inside its thread) as two threads, every interleaving up to 2 (quick) / 3 (thorough) preemptions under -race, results equal to the program run alone; the same pairs once more, each as the first activity of a brand-new process; (b) every history of depth <=2/3 of other-instance activity (never merged), after which brand-new instances must answer exactly as in a virgin process; (c) 2-3 threads x 1-2 requests on an immutable router with and without WithLock, up to 3/4 preemptions: per request own parameters, node and router name at handler entry and exit, pool contexts empty.",
+         "Preemption-bounded, 2-3 threads; the sync.Pool is replaced by a deterministic LIFO free list (the adversarial choice: maximal reuse); weak-memory effects not explored.", "4/C07"),
  "C08": ("SI", "exhaustive enumeration of handler write programs run under GET and HEAD on a wire-semantics ResponseWriter, plus explicit-state BFS over add/remove histories on one pattern",
          "Every handler program of length <=4 (quick, 7.4k) / <=5 (thorough, 66k) over WriteHeader/Write(0,1,3)/Set/Del steps: same status, same headers as sent except Content-Length, zero body bytes, Content-Length = bytes written when the handler sends no header itself. Every history of depth <=4/6 on a pattern with a splitting sibling, with and without WithTrace: HEAD iff GET with GET's handler, OPTIONS iff live, reserved/unknown registrations rejected without effect.",
          "The wire.Writer models net/http only as far as 'when is the header block sent'.", "4/C08"),
